@@ -99,4 +99,174 @@ theorem comments_run_ev (ch : Choices) (wsE : Nat → List Ev) (hws : WsOnly wsE
     rw [this]
     simp
 
+/-! ### `init_changeset` on the permuted attributes -/
+
+/-- the attribute list of `<changeset>` with each optional group present or not (as in `cs_chain`) -/
+def csAttrs (b1 b2 b3 b4 : Bool) (idv cav clv usr uv y1 x1 y2 x2 ncv ccv : Bytes) : List Attr :=
+  [("id", idv)] ++ optA b1 "created_at" cav ++
+    (if b2 then [("closed_at", clv), ("open", bFalse)] else [("open", bTrue)]) ++
+    (if b3 then [("user", usr), ("uid", uv)] else []) ++
+    (if b4 then [("min_lat", y1), ("min_lon", x1)] ++ [("max_lat", y2), ("max_lon", x2)] else []) ++
+    [("num_changes", ncv), ("comments_count", ccv)]
+
+theorem csAttrs_nodup (b1 b2 b3 b4 : Bool) (idv cav clv usr uv y1 x1 y2 x2 ncv ccv : Bytes) :
+    ((csAttrs b1 b2 b3 b4 idv cav clv usr uv y1 x1 y2 x2 ncv ccv).map Prod.fst).Nodup := by
+  cases b1 <;> cases b2 <;> cases b3 <;> cases b4 <;> simp (config := { decide := true }) [csAttrs, optA]
+
+theorem csAttrs_good (b1 b2 b3 b4 : Bool) (idv cav clv usr uv y1 x1 y2 x2 ncv ccv : Bytes) (idx cax clx ux ncx ccx : Nat)
+    (Y1 X1 Y2 X2 : Int)
+    (h_id : rUlong idv = .ok idx) (h_ca : rTimestamp cav = .ok cax) (h_cl : rTimestamp clv = .ok clx)
+    (h_u : rUlong uv = .ok ux) (h_y1 : rCoord y1 = .ok Y1) (h_x1 : rCoord x1 = .ok X1) (h_y2 : rCoord y2 = .ok Y2)
+    (h_x2 : rCoord x2 = .ok X2) (h_nc : rUlong ncv = .ok ncx) (h_cc : rUlong ccv = .ok ccx) :
+    ∀ a ∈ csAttrs b1 b2 b3 b4 idv cav clv usr uv y1 x1 y2 x2 ncv ccv, csGood a := by
+  cases b1 <;> cases b2 <;> cases b3 <;> cases b4 <;>
+    simp (config := { decide := true }) [csAttrs, optA, csGood, h_id, h_ca, h_cl, h_u, h_y1, h_x1, h_y2, h_x2, h_nc, h_cc]
+
+theorem cs_init_spec (ch : Choices) (id ca cl nc ncm : Nat) (uid : Int) (user : Bytes) (bl tr : Location) (tags : List Tag)
+    (cs : List Comment) (h : XCsOK id ca cl nc ncm uid user bl tr tags cs) :
+    initChangeset (OplFmt.OplSpec.pick ch.attrOrder
+      ([("id", num id)] ++ (if ca == 0 then [] else [("created_at", toIso ca)]) ++
+        (if cl == 0 then [("open", bTrue)] else [("closed_at", toIso cl), ("open", bFalse)]) ++
+        (if uid == 0 then [] else [("user", user), ("uid", num uid)]) ++
+        (if isUndefined bl && isUndefined tr then [] else latLon "min_lat" "min_lon" bl ++ latLon "max_lat" "max_lon" tr) ++
+        [("num_changes", num nc), ("comments_count", num ncm)])) =
+      .ok (.changeset id ca cl nc ncm (if uid != 0 then uid else 0) (if uid != 0 then user else []) bl tr [] []) := by
+  have rid := rUlong_num id h.id
+  have rnc := rUlong_num nc h.nc
+  have rcc := rUlong_num ncm h.ncm
+  have ru := rUlong_num uid.toNat (by have := h.uid1; omega)
+  have huid : ((uid.toNat : Nat) : Int) = uid := Int.toNat_of_nonneg h.uid0
+  rw [huid] at ru
+  obtain ⟨bx0, bx1, by0, by1⟩ := h.bl
+  obtain ⟨tx0, tx1, ty0, ty1⟩ := h.tr
+  have eform : ([("id", num id)] ++ (if ca == 0 then [] else [("created_at", toIso ca)]) ++
+        (if cl == 0 then [("open", bTrue)] else [("closed_at", toIso cl), ("open", bFalse)]) ++
+        (if uid == 0 then [] else [("user", user), ("uid", num uid)]) ++
+        (if isUndefined bl && isUndefined tr then [] else latLon "min_lat" "min_lon" bl ++ latLon "max_lat" "max_lon" tr) ++
+        [("num_changes", num nc), ("comments_count", num ncm)]) =
+      csAttrs (ca != 0) (cl != 0) (uid != 0) (!isUndefined bl || !isUndefined tr) (num id) (toIsoAll ca) (toIsoAll cl) user
+        (num uid) (formatCoord bl.y) (formatCoord bl.x) (formatCoord tr.y) (formatCoord tr.x) (num nc) (num ncm) := by
+    unfold csAttrs optA latLon
+    generalize isUndefined bl = u1
+    generalize isUndefined tr = u2
+    cases hca : (ca != 0) <;> cases hcl : (cl != 0) <;> cases hui : (uid != 0) <;> cases u1 <;> cases u2 <;>
+      simp at hca hcl hui <;> simp [toIso, hca, hcl, hui]
+  rw [eform]
+  unfold initChangeset
+  rw [initChangesetAttrs_pick _ _ (csAttrs_nodup ..) (csAttrs_good _ _ _ _ _ _ _ _ _ _ _ _ _ _ _ _ _ _ _ _ _ _ _ _ _
+    rid (rTimestamp_toIsoAll ca h.ca) (rTimestamp_toIsoAll cl h.cl) ru
+      (rCoord_formatCoord _ by0 by1) (rCoord_formatCoord _ bx0 bx1) (rCoord_formatCoord _ ty0 ty1)
+      (rCoord_formatCoord _ tx0 tx1) rnc rcc)]
+  have hch := cs_chain (ca != 0) (cl != 0) (uid != 0) (!isUndefined bl || !isUndefined tr) (num id) (toIsoAll ca) (toIsoAll cl)
+      user (num uid) (formatCoord bl.y) (formatCoord bl.x) (formatCoord tr.y) (formatCoord tr.x) (num nc) (num ncm) id ca cl uid.toNat nc ncm
+      bl.y bl.x tr.y tr.x rid (rTimestamp_toIsoAll ca h.ca) (rTimestamp_toIsoAll cl h.cl) ru
+      (rCoord_formatCoord _ by0 by1) (rCoord_formatCoord _ bx0 bx1) (rCoord_formatCoord _ ty0 ty1)
+      (rCoord_formatCoord _ tx0 tx1) rnc rcc
+  unfold csAttrs
+  rw [hch]
+  simp only [bindE_ok]
+  have c1 : (if (ca != 0) = true then ca else 0) = ca := by
+    cases hca : (ca != 0)
+    · simp at hca; simp [hca]
+    · simp
+  have c2 : (if (cl != 0) = true then cl else 0) = cl := by
+    cases hcl : (cl != 0)
+    · simp at hcl; simp [hcl]
+    · simp
+  have c3 : ((if (uid != 0) = true then uid.toNat else 0 : Nat) : Int) = (if (uid != 0) = true then uid else 0) := by
+    cases hui : (uid != 0) <;> simp [huid]
+  have c4 : (if (!isUndefined bl || !isUndefined tr) = true then (⟨bl.x, bl.y⟩ : Location) else Location.undefined) = bl := by
+    cases hb : (!isUndefined bl || !isUndefined tr)
+    · simp only [Bool.or_eq_false_iff, Bool.not_eq_false'] at hb
+      simp [(isUndefined_iff bl).1 hb.1]
+    · simp
+  have c5 : (if (!isUndefined bl || !isUndefined tr) = true then (⟨tr.x, tr.y⟩ : Location) else Location.undefined) = tr := by
+    cases hb : (!isUndefined bl || !isUndefined tr)
+    · simp only [Bool.or_eq_false_iff, Bool.not_eq_false'] at hb
+      simp [(isUndefined_iff tr).1 hb.2]
+    · simp
+  simp only [c1, c2, c3, c4, c5]
+
+/-! ### `<discussion>` -/
+
+theorem discussion_run_ev (ch : Choices) (wsE : Nat → List Ev) (hws : WsOnly wsE) (lvl : Nat) (cs : List Comment)
+    (hcs : ∀ x ∈ cs, XCommentOK x) (tl : List Ev) (st : RSt) (rest : List Ctx) (c : Cur)
+    (hs : st.stack = .changeset :: rest) (hc : st.cur = some c) (hl : ∀ cs', c.subs.getLast? ≠ some (.discussion cs'))
+    (hct : st.commentText = []) :
+    runEvents {} (elEvs ch wsE lvl "discussion" [] (cs.map fun x =>
+        elEvs ch wsE (lvl + 1) "comment" [("uid", num x.uid), ("user", x.user), ("date", toIsoAll x.date)]
+          [textEvs wsE (lvl + 2) x.text]) ++ tl) st =
+      runEvents {} tl { st with cur := some { c with subs := c.subs ++ [.discussion cs], lastOpen := true } } := by
+  let c1 : Cur := { c with subs := c.subs ++ [.discussion []], lastOpen := true }
+  let st1 : RSt := { st with stack := .discussion :: .changeset :: rest, cur := some c1 }
+  let c2 : Cur := { c1 with subs := c.subs ++ [.discussion ([] ++ cs)] }
+  let st2 : RSt := { st1 with cur := some c2 }
+  have hnt : NoText st := by unfold NoText; rw [hs]; simp
+  have hnt2 : NoText st2 := by unfold NoText; simp [st2, st1]
+  have h1 : startElement {} st "discussion" (OplFmt.OplSpec.pick ch.attrOrder []) = .ok st1 := by
+    rw [xpick_nil, discussion_open_step st rest c hs hc [], openDiscussion_fresh c hl]
+  have h2 := comments_run_ev ch wsE hws (lvl + 1) cs hcs
+    ((if (cs.map fun x => elEvs ch wsE (lvl + 1) "comment" [("uid", num x.uid), ("user", x.user), ("date", toIsoAll x.date)]
+          [textEvs wsE (lvl + 2) x.text]).isEmpty then [] else wsE lvl) ++ Ev.stop "discussion" :: tl)
+    (.changeset :: rest) c.subs [] st1 c1 rfl rfl rfl hct
+  have h3 : endElement {} st2 = .ok { st2 with stack := .changeset :: rest } := discussion_close_step st2 (.changeset :: rest) rfl
+  have hfin : ({ st2 with stack := .changeset :: rest } : RSt) =
+      { st with cur := some { c with subs := c.subs ++ [.discussion cs], lastOpen := true } } := by
+    simp only [st2, st1, c2, c1, hs, List.nil_append]
+  rw [run_open ch wsE hws lvl "discussion" _ _ tl st st1 hnt h1, h2]
+  rw [run_chars _ _ _ (allChars_if hws _ _) hnt2, run_stop, h3]
+  simp only [bindE_ok]
+  rw [hfin]
+
+/-! ### the whole `<changeset>` -/
+
+theorem firstTags_append_disc (pre : List Sub) (cs : List Comment) (hpre : pre = [] ∨ ∃ x, pre = [.tags x]) :
+    firstTags (pre ++ [.discussion cs]) = firstTags pre ∧ firstDiscussion (pre ++ [.discussion cs]) = cs := by
+  rcases hpre with rfl | ⟨x, rfl⟩ <;> simp [firstTags, firstDiscussion]
+
+theorem changeset_run_ev (ch : Choices) (wsE : Nat → List Ev) (hws : WsOnly wsE) (lvl : Nat) (id ca cl nc ncm : Nat) (uid : Int)
+    (user : Bytes) (bl tr : Location) (tags : List Tag) (cs : List Comment) (h : XCsOK id ca cl nc ncm uid user bl tr tags cs)
+    (st : RSt) (p : Ctx) (hp : TopParent p) (rest : List Ctx) (hs : st.stack = p :: rest) (hc : st.cur = none)
+    (hct : st.commentText = []) (tl : List Ev) :
+    runEvents {} (objectEvs ch wsE lvl (.changeset id ca cl nc ncm uid user bl tr tags cs) ++ tl) st =
+      runEvents {} tl { markDone st with out := project (specOpts ch) (.changeset id ca cl nc ncm uid user bl tr tags cs) :: st.out } := by
+  have hnt : NoText st := by unfold NoText; rw [hs]; rcases hp with rfl | rfl <;> simp
+  let ob0 : Object := .changeset id ca cl nc ncm (if uid != 0 then uid else 0) (if uid != 0 then user else []) bl tr [] []
+  have hproj : project (specOpts ch) (.changeset id ca cl nc ncm uid user bl tr tags cs) =
+      .changeset id ca cl nc ncm (if uid != 0 then uid else 0) (if uid != 0 then user else []) bl tr tags cs := rfl
+  obtain ⟨pre, lo, hcol, hpre, hft⟩ := tags_first_collected ob0 tags
+  have hstart : ∀ as, initChangeset (OplFmt.OplSpec.pick ch.attrOrder as) = .ok ob0 →
+      startElement {} st "changeset" (OplFmt.OplSpec.pick ch.attrOrder as) =
+        .ok { markDone (push st .changeset) with cur := some { obj := ob0 } } := by
+    intro as hi
+    rw [start_changeset st p hp rest hs, hi]
+    rfl
+  have hinit := cs_init_spec ch id ca cl nc ncm uid user bl tr tags cs h
+  simp only [objectEvs]
+  cases hcs : cs with
+  | nil =>
+    subst hcs
+    simp only [List.isEmpty_nil, if_true, List.append_nil]
+    rw [obj_frame ch wsE hws lvl "changeset" .changeset (Or.inr (Or.inr (Or.inr rfl))) _ _ tl st _ rest hnt hs hc ob0
+      (tags.foldl addTag { obj := ob0 }) (hstart _ hinit)
+      (fun st1 tl' hs1 hc1 _ => ⟨_, tags_run_ev ch wsE hws (lvl + 1) tags h.tags tl' .changeset (Or.inr (Or.inr (Or.inr rfl))) _ st1 _ hs1 hc1, rfl⟩)]
+    rw [hcol, assemble_changeset _ id ca cl nc ncm _ _ bl tr [] [] tags [] rfl hft (by
+      rcases hpre with rfl | ⟨x, rfl⟩ <;> rfl), hproj]
+  | cons x xs =>
+    rw [← hcs]
+    have hne : cs.isEmpty = false := by rw [hcs]; rfl
+    have hl : ∀ cs', ({ obj := ob0, subs := pre, lastOpen := lo } : Cur).subs.getLast? ≠ some (.discussion cs') := by
+      rcases hpre with rfl | ⟨x, rfl⟩ <;> simp
+    simp only [hne, Bool.false_eq_true, if_false]
+    rw [obj_frame ch wsE hws lvl "changeset" .changeset (Or.inr (Or.inr (Or.inr rfl))) _ _ tl st _ rest hnt hs hc ob0
+      { obj := ob0, subs := pre ++ [.discussion cs], lastOpen := true } (hstart _ hinit)
+      (fun st1 tl' hs1 hc1 hct1 => ⟨_, by
+        rw [List.flatten_append, List.append_assoc,
+          tags_run_ev ch wsE hws (lvl + 1) tags h.tags _ .changeset (Or.inr (Or.inr (Or.inr rfl))) _ st1 _ hs1 hc1, hcol]
+        simp only [List.flatten_cons, List.flatten_nil, List.append_nil]
+        exact discussion_run_ev ch wsE hws (lvl + 1) cs h.cs tl' _ _ { obj := ob0, subs := pre, lastOpen := lo } hs1 rfl hl
+          (hct1.trans hct), rfl⟩)]
+    obtain ⟨f1, f2⟩ := firstTags_append_disc pre cs hpre
+    rw [assemble_changeset _ id ca cl nc ncm _ _ bl tr [] [] tags cs rfl (f1.trans hft) f2, hproj]
+
 end Osmium.XmlFmt.XmlSpec
